@@ -471,7 +471,7 @@ def header_analysis(case, a, b, p, miss, new, aux):
             if not e.startswith('CIRC-'):
                 continue
             if pure_circ_possible(case, entry_fields(e)[0], p):
-                return 'circRNA header entry %s names no added record and the peptide is readable from the record-free circle' % e
+                return 'circRNA header entry %s names no added record and the peptide is readable from an open reading frame of the record-free circle' % e
             st['header_underreports_circ_record_behind_backsplice'] += 1
         miss = [e for e in miss if not e.startswith('CIRC-')]
         if not miss:
@@ -499,8 +499,10 @@ def header_analysis(case, a, b, p, miss, new, aux):
     return None
 
 def pure_circ_possible(case, circ_id, p):
-    """p (or M+p) occurs in the translation, ignoring stop codons, of four copies of the circRNA's own
-    sequence without any record, in one of the three frames (generator's own codon table)"""
+    """necessary condition for p to be a peptide of the circRNA WITHOUT any record: p (or M+p) is a contiguous
+    part of the translation of an open reading frame of the record-free circle -- from an ATG (any frame, any
+    position of the first copy) to the first stop codon within four copies (generator's own codon table).
+    A stretch between two stop codons without an ATG, or an ORF that never closes, yields no peptide."""
     for f in case['files']:
         if f['kind'] != 'circ':
             continue
@@ -509,10 +511,20 @@ def pure_circ_possible(case, circ_id, p):
                 continue
             gene = CG.find_gene(case['world'], gene_id)
             gs = G.gene_seq(case['world'], gene)
-            circ = ''.join(gs[s0 + o:s0 + o + l] for o, l in zip(offs, lens)) * 4
-            for fr in range(3):
-                aa = ''.join(G.CODON.get(circ[i:i + 3], 'X') for i in range(fr, len(circ) - 2, 3))
-                if p in aa:
+            one = ''.join(gs[s0 + o:s0 + o + l] for o, l in zip(offs, lens))
+            circ = one * 5
+            for st in range(len(one)):
+                if circ[st:st + 3] != 'ATG':
+                    continue
+                aa = []
+                closed = False
+                for i in range(st, min(len(circ) - 2, st + 4 * len(one)), 3):
+                    a = G.CODON.get(circ[i:i + 3], 'X')
+                    if a == '*':
+                        closed = True
+                        break
+                    aa.append(a)
+                if closed and p in ''.join(aa):
                     return True
     return False
 
@@ -653,6 +665,8 @@ def _judge(ctx, cases, evs, violations, stats):
                         tag = F_D14
                     elif dim in ('vars', 'file') and b.xs and all(explain_stoploss(b, p) for p in rest):
                         tag = CK.F_STOPLOSS
+                    elif a.run['exc'] == 'None' and flicker_stoploss(ctx, c, rest, (a, b), unstable):
+                        tag = CK.F_STOPLOSS
                     stats['removed_other:%s:%s' % (dim, tag or 'UNEXPLAINED')] += len(rest)
                     v = {'what': 'NOT MONOTONE (%s, stream %s): %s in the output of the %s run but not of the %s run' % (
                              dim, st, rest[:4], 'restricted' if dim in ('noncan', 'bso') else 'strict',
@@ -667,6 +681,12 @@ def _judge(ctx, cases, evs, violations, stats):
                     tag = F_D14
                 elif st == 'excon' and nondeterministic(ctx, c, unstable):
                     tag = F_D14
+                elif all(a.missing.get(x[0]) for x in bad):
+                    # every such peptide is OBLIGED already at the strict setting and its absence there matches a
+                    # listed signature of C01 (e.g. C01-stoploss: 3'UTR peptides behind a read-through stop flicker)
+                    tag = sorted(set(a.missing[x[0]] for x in bad))[0]
+                elif a.run['exc'] == 'None' and flicker_stoploss(ctx, c, [x[0] for x in bad], (a, b), unstable):
+                    tag = CK.F_STOPLOSS
                 bad = [x[:2] for x in bad]
                 stats['unattributed:%s:%s' % (dim, tag or 'UNEXPLAINED')] += len(bad)
                 v = {'what': 'added peptide not attributable to the relaxation of %s (stream %s): %s' % (dim, st, ['%s: %s' % x for x in bad[:3]]),
@@ -684,22 +704,74 @@ def explain_stoploss(ev, p):
             return True
     return False
 
-def nondeterministic(ctx, case, memo, n=4):
-    """re-run the case n times: do the outputs of one and the same run differ between repeats? (D14)"""
+def repeats(ctx, case, memo, n=6):
+    """re-run the case n times -> per run index the list of its n outputs ({sequence: [entries]} or None)"""
     key = id(case)
     if key not in memo:
         c = CK.strip_case(case)
         res = I.run_cases('c05', [json.loads(json.dumps(c)) for _ in range(n)], jobs=min(ctx.jobs, n), tag='c05nd')
-        diff = False
+        out = []
         for ri in range(len(case['runs'])):
-            sets = []
+            outs = []
             for r in res:
                 rr = r['runs'][ri] if 'runs' in r else r
-                sets.append(None if '__exc__' in rr else frozenset(s for _, s in rr['fasta']))
-            if len(set(sets)) > 1:
-                diff = True
-        memo[key] = diff
+                if '__exc__' in rr:
+                    outs.append(None); continue
+                d = {}
+                for h, q in rr['fasta']:
+                    d.setdefault(q, []).extend(h.split(' '))
+                outs.append(d)
+            out.append(outs)
+        memo[key] = out
     return memo[key]
+
+def nondeterministic(ctx, case, memo, n=6):
+    """do the outputs of one and the same run differ between repeats? (D14)"""
+    for outs in repeats(ctx, case, memo, n):
+        if len(set(None if o is None else frozenset(o) for o in outs)) > 1:
+            return True
+    return False
+
+def utr_only_entry(case, ev, ent):
+    """the header entry belongs to a coding transcript and every record it names lies at or behind the
+    annotated stop codon: such a peptide exists only behind a read-through stop codon"""
+    f = entry_fields(ent)
+    tx_id = f[0]
+    try:
+        ce = CK._cds_end(case, tx_id)
+    except KeyError:
+        return False
+    if ce is None:
+        return False
+    pos = {r['id']: r['s'] for r in ev.recs.get(tx_id, [])}
+    ids = [x for x in f[1:] if x.split('-')[0] in ('SNV', 'INDEL', 'MNV')]
+    return bool(ids) and all(x in pos and pos[x] >= ce for x in ids)
+
+def flicker_stoploss(ctx, case, peps, evs_pair, memo):
+    """signature of C01-stoploss where no specification is available (large inputs), exception OFF: the
+    engine's traversal keeps one cursor for a node reached both through the reference path behind the stop
+    codon and through the read-through path; which one survives depends on set iteration order, so the
+    3'UTR peptides flicker between repeats of the SAME run.  Matches iff every disputed peptide (a) is
+    present in some repeats and absent in others of one and the same run and (b) has only header entries
+    whose records all lie at or behind the annotated stop codon of a coding transcript."""
+    reps = repeats(ctx, case, memo)
+    for p in peps:
+        flick = False
+        ents = []
+        for outs in reps:
+            have = [o is not None and p in o for o in outs]
+            if any(have) and not all(have):
+                flick = True
+            for o in outs:
+                if o and p in o:
+                    ents += o[p]
+        for ev in evs_pair:
+            ents += ev.got.get(p, [])
+        if not flick or not ents:
+            return False
+        if not all(any(utr_only_entry(case, ev, e) for ev in evs_pair) for e in set(ents)):
+            return False
+    return True
 
 # ------------------------------------------------------------------ driver
 def corpus_cases():
